@@ -59,6 +59,7 @@ class Lowerer:
         self._fn_types_cache = {}
         self._unified_cache = {}
         self._cname_owner = {}
+        self.call_edges = set()
         self.index()
         # emission state
         self.needed_funcs = {}     # first id -> cname (queued for emission)
@@ -941,6 +942,7 @@ class Lowerer:
         return out
 
     def reset_emission(self):
+        self.call_edges = set()
         self._cname_owner = {}
         self.needed_funcs = {}
         self.queue = []
@@ -1824,6 +1826,7 @@ class FuncLowerer:
                 (first.get('isImplicit') or first.get('explicitlyDefaulted') == 'default') and L.func_first(first['id']) not in L.body_of:
             return '(*%s = %s)' % (paren(cargs[0]), self.rv(args[0])), True
         cname = L.require(callee['id'])
+        L.call_edges.add((self.cname.split('/')[0], cname))
         if cname in LIBC or cname.startswith('__builtin_'):
             return '%s(%s)' % (cname, ', '.join(self.rv(a) for a in args)), False
         cargs.extend(self.call_args(first, args))
